@@ -73,7 +73,7 @@ def run(ctx):
 
     # 4. S->I: interleavings with held readers, replayed single-threaded
     cases = os.path.join(ctx.work, "beh.ndjson")
-    gen = ctx.tlc("Gen_ZoneStore", "Gen_ZoneStore_c09", workers=4, simulate=(60 if thorough else 15),
+    gen = ctx.tlc("Gen_ZoneStore", "Gen_ZoneStore_c09", workers=4, simulate=(60 if thorough else 10),
                   depth=41, label="gen", coverage=False, cases_to=cases, count=False, timeout=3000)
     ctx.require_ok(gen, "Gen_ZoneStore_c09")
     if gen.ncases < 50:
